@@ -221,6 +221,14 @@ func C07(rep *ev.Reporter, tier string) {
 		lib := ast.NewKnowledgeLibrary()
 		rb := builder.NewRuleBuilder(lib)
 		for _, r := range resources {
+			if name, ok := strings.CutPrefix(r, "!remove:"); ok {
+				lib.RemoveRuleEntry(name, hx.KBName, hx.KBVer) // library-level removal between two builds
+				continue
+			}
+			if text, ok := strings.CutPrefix(r, "!rejected:"); ok {
+				rb.BuildRuleFromResource(hx.KBName, hx.KBVer, pkg.NewBytesResource([]byte(text))) // a resource that is rejected (error ignored on purpose)
+				continue
+			}
 			if err := rb.BuildRuleFromResource(hx.KBName, hx.KBVer, pkg.NewBytesResource([]byte(r))); err != nil {
 				o.builderr = err.Error()
 				return o
@@ -301,6 +309,23 @@ func C07(rep *ev.Reporter, tier string) {
 			{"separate-resources-ab", []string{ra, rbt}},
 			{"separate-resources-ba", []string{rbt, ra}},
 		}
+		// the sibling is GONE when the rule is built: removed from the library, or part of a rejected resource (a
+		// broken rule using the sibling's expression); then the sibling is built (again) next to it
+		goneCond := "K.B"
+		if typ == ref.VBool {
+			goneCond = p.a
+		}
+		gone := fmt.Sprintf("rule gone { when %s then K.In = ; }", goneCond)
+		variants = append(variants, struct {
+			name string
+			res  []string
+		}{"sibling-removed-before-b#only-b", []string{ra, "!remove:ra", rbt}}, struct {
+			name string
+			res  []string
+		}{"rejected-resource-before-b", []string{"!rejected:" + gone, rbt, ra}}, struct {
+			name string
+			res  []string
+		}{"sibling-removed-then-rebuilt", []string{ra, "!remove:ra", rbt, ra}})
 		// triple: the sibling expressions sit inside a larger expression shared by a third rule
 		if typ == ref.VBool {
 			rc := fmt.Sprintf("rule rc { when (%s) && K.B then K.In = 1; Retract(\"rc\"); }", p.a)
@@ -330,13 +355,14 @@ func C07(rep *ev.Reporter, tier string) {
 				if rep.ReplayFilter != "" && rep.ReplayFilter != caseID {
 					continue
 				}
+				onlyB := strings.HasSuffix(v.name, "#only-b")
 				tog := observe(v.res, mkw)
 				atomic.AddInt64(&nRuns, 1)
 				diff := ""
 				switch {
 				case tog.builderr != "":
 					diff = "built together: " + tog.builderr
-				case tog.fetch["ra"] != aloneA.fetch["ra"]:
+				case !onlyB && tog.fetch["ra"] != aloneA.fetch["ra"]:
 					diff = fmt.Sprintf("FetchMatchingRules: ra matches alone=%v together=%v", aloneA.fetch["ra"], tog.fetch["ra"])
 				case tog.fetch["rb"] != aloneB.fetch["rb"]:
 					diff = fmt.Sprintf("FetchMatchingRules: rb matches alone=%v together=%v", aloneB.fetch["rb"], tog.fetch["rb"])
@@ -345,11 +371,13 @@ func C07(rep *ev.Reporter, tier string) {
 					if typ != ref.VBool {
 						sa, sb = sinkOf(0, typ), sinkOf(1, typ)
 					}
-					if tog.sinks[sa] != aloneA.sinks[sa] {
+					if !onlyB && tog.sinks[sa] != aloneA.sinks[sa] {
 						diff = fmt.Sprintf("Execute: ra computes %s=%s alone but %s together", sa, aloneA.sinks[sa], tog.sinks[sa])
 					} else if tog.sinks[sb] != aloneB.sinks[sb] {
 						diff = fmt.Sprintf("Execute: rb computes %s=%s alone but %s together", sb, aloneB.sinks[sb], tog.sinks[sb])
-					} else if (tog.err == "") != (aloneA.err == "" && aloneB.err == "") {
+					} else if onlyB && (tog.err == "") != (aloneB.err == "") {
+						diff = fmt.Sprintf("Execute error alone: %q, after the sibling was removed: %q", aloneB.err, tog.err)
+					} else if !onlyB && (tog.err == "") != (aloneA.err == "" && aloneB.err == "") {
 						diff = fmt.Sprintf("Execute error alone: %q / %q, together: %q", aloneA.err, aloneB.err, tog.err)
 					}
 				}
@@ -454,5 +482,5 @@ func C07(rep *ev.Reporter, tier string) {
 		rep.Exhaustive = false
 		rep.Coverage["caps_hit"] = "time budget"
 	}
-	rep.Coverage["rule"] = "sibling pairs differing in exactly one place: constants (floats equal to 6 decimals, sign, exponent, int vs string/bool rendering, integer N vs real N.0 in every position where the kinds behave differently, digits, hex vs decimal, strings differing in one char / case / containing quote, bracket, comma, arrow, strings imitating snapshot syntax), all 42 substitutions among the 7 arithmetic/bitwise and all 30 among the 6 comparison operators, && vs ||, 9 negation forms pairwise, operand order, grouping, selectors (index, key, computed), paths, argument order/splitting/count/nesting, method names; each pair built alone vs together in both textual orders, in one resource and in separate resources, and as a triple inside a larger shared expression; 5 fact states; plus sibling rules that differ only in the assignment TARGET (index, key, computed selector, field, nested field); plus two rules using the IDENTICAL expression (6 kinds: map entry, field, slice element, pointer field, sum, method call) in every pair of 7 roles (bare operand, bracketed, comparison in bracket, negated bracket, method argument, selector index) and 3 action roles while the first rule changes its value each cycle, 3 salience relations, every clone order of the instance and every rule order, judged in lockstep with the reference model. Differential oracle (no expected values): FetchMatchingRules membership and the sink value computed by Execute of each rule alone == together. Non-trivial: the reference evaluator certifies that the two siblings differ on at least one of the states."
+	rep.Coverage["rule"] = "sibling pairs differing in exactly one place: constants (floats equal to 6 decimals, sign, exponent, int vs string/bool rendering, integer N vs real N.0 in every position where the kinds behave differently, digits, hex vs decimal, strings differing in one char / case / containing quote, bracket, comma, arrow, strings imitating snapshot syntax), all 42 substitutions among the 7 arithmetic/bitwise and all 30 among the 6 comparison operators, && vs ||, 9 negation forms pairwise, operand order, grouping, selectors (index, key, computed), paths, argument order/splitting/count/nesting, method names; each pair built alone vs together in both textual orders, in one resource and in separate resources, as a triple inside a larger shared expression, and with the sibling GONE when the rule is built (removed from the library before; part of a rejected resource; removed and rebuilt); 5 fact states; plus sibling rules that differ only in the assignment TARGET (index, key, computed selector, field, nested field); plus two rules using the IDENTICAL expression (6 kinds: map entry, field, slice element, pointer field, sum, method call) in every pair of 7 roles (bare operand, bracketed, comparison in bracket, negated bracket, method argument, selector index) and 3 action roles while the first rule changes its value each cycle, 3 salience relations, every clone order of the instance and every rule order, judged in lockstep with the reference model. Differential oracle (no expected values): FetchMatchingRules membership and the sink value computed by Execute of each rule alone == together. Non-trivial: the reference evaluator certifies that the two siblings differ on at least one of the states."
 }
